@@ -105,6 +105,7 @@ func (x *Exec) call(e *ast.CallExpr, st *State) Value {
 		x.checkCallbackLit(lit, st)
 	}
 	res := x.callWith(e, st, recvVal, argVals)
+	x.bumpFrontier(st)
 	async := false
 	if fn := x.calleeOf(e); fn != nil {
 		if c := x.eng.contractFor(fn); c != nil && c.Opts["async"] == "true" {
